@@ -183,7 +183,7 @@ static rc::Gen<Case> gen_drbg(int tier) {
     Case c;
     c.push_back(Op("seed", {*range<int64_t>(0, 0xffffffffLL)}));
     // shape of the history
-    int shape = *rc::gen::weightedElement<int>({{50, 0}, {60, 1}, {30, 2}, {tier == 0 ? 1 : 2, 3}});
+    int shape = *rc::gen::weightedElement<int>({{50, 0}, {60, 1}, {30, 2}, {1, 3}});
     auto one = []() -> int64_t {
       return *rc::gen::weightedOneOf<int64_t>({{2, rc::gen::just<int64_t>(0)},
                                               {6, rc::gen::just<int64_t>(1)},
@@ -233,7 +233,7 @@ static rc::Gen<Case> gen_drbg(int tier) {
     } else {  // one request spanning more than a whole interval (two entropy calls inside one request)
       int before = *range<int>(0, 2);
       for (int i = 0; i < before; i++) add_req(one());
-      add_req(tier == 0 ? 65536 * 257 + *range<int>(-1, 1) : 65536 * (int64_t)*range<int>(256, 258) + *range<int>(-1, 1));
+      add_req(65536 * (int64_t)(tier == 0 ? 257 : *range<int>(256, 258)) + *range<int>(-1, 1));
       add_req(one());
     }
     // failures: at instantiation (call 0, possibly repeated), at the k-th reseed, with retries
